@@ -49,6 +49,7 @@ func c13Mutations(c *vCatalogue, m *vPos, sch vMappingSchema) []c13Mut {
 	}
 	if sch.Closed {
 		foreign := ind + "zzforeign: 1"
+		foreignForms := []string{foreign, ind + "ZZFOREIGN: {a: [b]}", ind + "zzforeign:"}
 		type place struct {
 			name  string
 			after int
@@ -62,12 +63,18 @@ func c13Mutations(c *vCatalogue, m *vPos, sch vMappingSchema) []c13Mut {
 		}
 		places = append(places, place{"foreign-last", m.EndLine})
 		for _, pl := range places {
-			src, lm := ins(pl.after, []string{foreign})
-			mu := c13Mut{kind: pl.name, key: "zzforeign", src: src, expLine: pl.after + 1, expCol: m.Indent, lineMap: lm}
-			if sch.AtItem {
-				mu.expLine, mu.expCol = lm(m.Line), m.Col
+			for fi, ff := range foreignForms {
+				src, lm := ins(pl.after, []string{ff})
+				name := pl.name
+				if fi > 0 {
+					name = fmt.Sprintf("%s-form%d", pl.name, fi)
+				}
+				mu := c13Mut{kind: name, key: strings.TrimSuffix(strings.Fields(ff)[0], ":"), src: src, expLine: pl.after + 1, expCol: m.Indent, lineMap: lm}
+				if sch.AtItem {
+					mu.expLine, mu.expCol = lm(m.Line), m.Col
+				}
+				out = append(out, mu)
 			}
-			out = append(out, mu)
 		}
 	}
 	for ki, k := range m.Keys {
@@ -214,7 +221,7 @@ func c03QuoteCopy(s string) string { return "'" + strings.ReplaceAll(s, "'", "''
 func TestVerifC13(t *testing.T) {
 	r := vNewReport("C13")
 	defer r.Write(t)
-	r.Extra["rule"] = "every mapping node of the 4 maximal seeds x {foreign key first/middle/last (closed mappings), every key duplicated verbatim / re-cased (case-insensitive sections), every mandatory key removed} x {alone, plus a malformed placeholder in each direct sibling scalar}; oracle from the schema of appendix C; class = (schema path of the mapping, mutation); all classes non-trivial"
+	r.Extra["rule"] = "every mapping node of the 4 maximal seeds x {foreign key first/middle/last in 3 forms (scalar, nested, null value; closed mappings), every key duplicated verbatim / re-cased (case-insensitive sections), every mandatory key removed} x {alone, plus a malformed placeholder in each sibling scalar (direct values and the first scalar below each sibling section)}; oracle from the schema of appendix C; class = (schema path of the mapping, mutation); all classes non-trivial"
 	r.Extra["assumptions"] = []string{"block-style mappings of the seeds only; open mappings get no foreign-key expectation; on: event names are left to the events rule"}
 	if raw := vReplayInput(); raw != nil {
 		var rp map[string]any
@@ -248,11 +255,21 @@ func TestVerifC13(t *testing.T) {
 				continue
 			}
 			mappings++
-			// direct sibling scalars (non-exempt)
+			// sibling scalars (non-exempt): the direct values of this mapping's keys and, for keys
+			// that hold sections, the first scalar found below each of them
 			var sibs []*vPos
+			deep := map[int]bool{}
 			for _, s := range c.Scalars {
+				if ss, ok := vSchemaOf(s.NPath); !ok || ss.Exempt {
+					continue
+				}
 				if s.Parent == m && !s.IsKey {
-					if ss, ok := vSchemaOf(s.NPath); ok && !ss.Exempt {
+					sibs = append(sibs, s)
+					continue
+				}
+				for ki, k := range m.Keys {
+					if s.Line >= k.Line && s.Line <= k.EndLine && !deep[ki] && s.Parent != m && (strings.HasPrefix(s.Path, k.Path+".") || strings.HasPrefix(s.Path, k.Path+"[")) {
+						deep[ki] = true
 						sibs = append(sibs, s)
 					}
 				}
